@@ -51,6 +51,7 @@ def psm_frame(
     twin=False,
     colliding_keys=False,
     flag_feature=False,
+    crossed_levels=False,
 ):
     """Build a PSM table.  `mults` = list of spectrum multiplicities (rows per spectrum).
 
@@ -135,7 +136,14 @@ def psm_frame(
     tp = rng.integers(0, npep, n)
     pep = np.array([tpool[i] if t else dpool[i][::-1] for i, t in zip(tp, is_target)], dtype=object)
     data["Peptide"] = pep
-    for lv in extra_levels:
+    if crossed_levels and extra_levels:
+        # level columns that are not nested in each other but have the same number of distinct entities
+        # (e.g. precursors vs. peptide groups defined independently): equally many rows per level, other rows
+        kk = max(2, n // 3)
+        for lv in extra_levels:
+            assign = rng.permutation(n) % kk
+            data[lv] = np.array([("grp_" if lv == "PeptideGroup" else lv[:3].lower() + "_") + "%d%s" % (a, "" if t else "d") for a, t in zip(assign, is_target)], dtype=object)
+    for lv in (() if (crossed_levels and extra_levels) else extra_levels):
         if lv == "ModifiedPeptide":
             data[lv] = np.array([p + ("[+16]" if rng.random() < 0.4 else "") for p in pep], dtype=object)
         elif lv == "Precursor":
